@@ -63,8 +63,8 @@ def _one(args):
 
 
 def run(prop, root=None, jobs=16):
-    from selftest import mutants
-    ms = mutants.MUTANTS.get(prop, [])
+    from selftest import mutants, mutants2
+    ms = list(mutants.MUTANTS.get(prop, [])) + list(mutants2.EXTRA.get(prop, []))
     if not ms:
         return {"mutants": 0}, []
     with ProcessPoolExecutor(max_workers=min(jobs, len(ms))) as ex:
